@@ -79,10 +79,22 @@ Candidates(e) ==
             ELSE {}
       [] OTHER -> IF e.res \in {"ok", "err_io"} THEN {accepted} ELSE {}
 
+\* Hook state [objects in the open block, a finished block awaits its flush (0/1), bytes in the block buffer] after a call that
+\* returned Ok, or Err for a reason other than the sink: no block is pending, and the open block holds exactly the accepted items
+\* that are not yet in the sink - their count and their bytes (a value that failed half-way has been rolled back).
+RECURSIVE SumLen(_, _)
+SumLen(items, from) == IF from > Len(items) THEN 0 ELSE Len(items[from]) + SumLen(items, from + 1)
+HookOk(e, newAcc, nf) ==
+    IF e.hs[1] = -1 \/ e.res \notin {"ok", "err"} THEN TRUE        \* (IF, not \/: inside an action every disjunct is evaluated)
+    ELSE /\ e.hs[2] = 0
+         /\ e.hs[1] = Len(newAcc) - nf
+         /\ e.hs[3] = SumLen(newAcc, nf + 1)
+
 OpAllowed(e) ==
     \E newAcc \in Candidates(e) :
         LET nf == BlocksOk(e.blocks, 1, newAcc, nflushed) IN
         /\ nf >= 0
+        /\ HookOk(e, newAcc, nf)
         /\ e.aligned
         /\ ((e.res = "ok" /\ e.op \in {"finish", "into_inner", "drop"}) => nf = Len(newAcc))
         /\ accepted' = newAcc /\ nflushed' = nf
